@@ -51,10 +51,15 @@ def fit_mvstud(data, tolerance=1e-6, max_iter=100):
             )
             return f
 
-        if func0(1e300) >= 0:
+        # The score tends to 0 as nu -> inf and its sign there decides whether a finite
+        # root exists. It has to be evaluated where double precision can still resolve
+        # it: at 1e300 every weight rounds to exactly 1 and the score is exactly 0.0
+        # for any data, which made every fit return nu = inf.
+        nu_max = 1e6
+        if func0(nu_max) >= 0:
             nu = np.inf
         else:
-            nu = optimize.bisect(func0, 1e-300, 1e300)
+            nu = optimize.bisect(func0, 1e-300, nu_max)
         return nu
 
     data = data.T
